@@ -11,7 +11,7 @@ class C30(S.SchedCheck):
     design_ref = "DESIGN.md §5 C30"
     quick_n = 400
     thorough_n = 12000
-    workers = 4
+    workers = 1
     technique = ("adoLoop written from Doist.ado's own loop (extra await where arbitrary other tasks act on a disjoint world) proved equal to doLoop for every program; "
                  "translator: statement skeletons of Doist.do and Doist.ado extracted from the AST on every run, `decide`d equal modulo the await and the AsyncTimer/MonoTimer identification; "
                  "correspondence + oracle: the same program through doist.do() and through asyncio's run_until_complete(doist.ado()) on a SelectorEventLoop")
